@@ -145,6 +145,9 @@ impl BitVector {
 
         if value {
             self.data[word_idx] |= 1 << bit_idx;
+        } else {
+            // Bits past `len` may be set (e.g. after `ones()` or `not()`), so clear explicitly.
+            self.data[word_idx] &= !(1 << bit_idx);
         }
 
         self.len += 1;
